@@ -66,6 +66,7 @@ type ChainCfg struct {
 	EpochsUntilUnbonded uint32
 	MaxValidators       uint32
 	MinSelfDelegation   int64
+	HistoricalEntries   uint32 // 0 = the module default (10000)
 	// extra genesis epochs (identifier -> duration); the four defaults always exist
 	InitTime time.Time
 	// mutators applied to the genesis map before InitChain
@@ -300,6 +301,9 @@ func NewChain(cfg ChainCfg) *Chain {
 	dg.Params.EpochsUntilUnbonded = cfg.EpochsUntilUnbonded
 	dg.Params.MaxValidators = cfg.MaxValidators
 	dg.Params.AssetIDs = append([]string{}, c.AssetIDs...)
+	if cfg.HistoricalEntries != 0 {
+		dg.Params.HistoricalEntries = cfg.HistoricalEntries
+	}
 	genesisState[dogfoodtypes.ModuleName] = cdc.MustMarshalJSON(dg)
 	genesisState[distributiontypes.ModuleName] = cdc.MustMarshalJSON(distributiontypes.NewGenesisState(distributiontypes.DefaultParams()))
 
@@ -313,12 +317,28 @@ func NewChain(cfg ChainCfg) *Chain {
 	if err != nil {
 		panic(err)
 	}
-	app.InitChain(abci.RequestInitChain{
-		Time: cfg.InitTime, ChainId: cfg.ChainID, Validators: []abci.ValidatorUpdate{},
-		ConsensusParams: exocoreapp.DefaultConsensusParams, AppStateBytes: stateBytes,
+	// a panic of InitChain / the first BeginBlock is a halted node, not a dead harness (crash.go);
+	// it is re-raised as a chainHalt (which prints like the original panic value for the domains
+	// that recover from NewChain themselves, e.g. genesis import rejections)
+	noteBoot(c)
+	guarded := func(where string, f func()) {
+		defer func() {
+			if r := recover(); r != nil {
+				site := appFrame(debug.Stack())
+				c.Halted = where + ": " + shortMsg(fmt.Sprint(r))
+				panic(chainHalt{where: where, msg: shortMsg(fmt.Sprint(r)), site: site, orig: r})
+			}
+		}()
+		f()
+	}
+	guarded("InitChain", func() {
+		app.InitChain(abci.RequestInitChain{
+			Time: cfg.InitTime, ChainId: cfg.ChainID, Validators: []abci.ValidatorUpdate{},
+			ConsensusParams: exocoreapp.DefaultConsensusParams, AppStateBytes: stateBytes,
+		})
 	})
 	c.Header = c.newHeader(1, cfg.InitTime.Add(time.Second))
-	app.BeginBlock(abci.RequestBeginBlock{Header: c.Header})
+	guarded("BeginBlock", func() { app.BeginBlock(abci.RequestBeginBlock{Header: c.Header}) })
 	c.Ctx = app.BaseApp.NewContext(false, c.Header)
 	return c
 }
@@ -351,6 +371,7 @@ func recoverTo(dst *string, where string) {
 			s = s[:300]
 		}
 		*dst = where + ": " + strings.ReplaceAll(s, "\n", " ")
+		lastPanicSite = appFrame(debug.Stack())
 		if os.Getenv("VERIF_STACK") != "" {
 			fmt.Fprintf(os.Stderr, "PANIC %s\n%s\n", *dst, debug.Stack())
 		}
